@@ -64,6 +64,12 @@ IsIdStart(c) == c \in 65..90 \/ c \in 97..122 \/ c = 95
 \* scripts the generators use are listed (Arabic-Indic, Devanagari, fullwidth)
 IsUniDigit(c) == c \in 1632..1641 \/ c \in 2406..2415 \/ c \in 65296..65305
 IsIdCont(c) == IsIdStart(c) \/ IsDigit(c) \/ IsUniDigit(c)
+\* code points whose UTF-8 encoding starts with a lead byte that also starts some Unicode decimal digit
+\* (D9, DB, DF, E0, E1, EA, EF, F0) and which are not themselves modelled as digits
+SharesLeadWithDigit(c) ==
+  /\ ~IsUniDigit(c)
+  /\ \/ c \in 1600..1663 \/ c \in 1728..1791 \/ c \in 1984..2047 \/ c \in 2048..8191
+     \/ c \in 40960..45055 \/ c \in 61440..65535 \/ c \in 65536..262143
 
 Utf8Len(c) == IF c < 128 THEN 1 ELSE IF c < 2048 THEN 2 ELSE IF c < 65536 THEN 3 ELSE 4
 
@@ -140,8 +146,14 @@ LexAll(cs, withHeader) ==
                       IN  [rest EXCEPT !.toks = <<[k |-> "Error", s |-> b, e |-> b + Utf8Len(cs[i]), i |-> i, n |-> 1]>> \o @]
                  ELSE LET nb == Bytes(i, best[1])
                           rest == LexLine(i + best[1], b + nb)
+                          \* DEVIATION of the generated scanner (named, not idealised away): a word keyword that is directly
+                          \* followed by a character which cannot continue an identifier but whose UTF-8 encoding starts
+                          \* with the lead byte of some Unicode decimal digit (the identifier pattern uses \d) comes out as
+                          \* an identifier - the scanner has already left the keyword's accepting state when it finds
+                          \* that the character does not fit.  The text is rejected either way (an Error token follows).
+                          kind == IF best[2] = 2 /\ IsIdStart(cs[i]) /\ SharesLeadWithDigit(At(i + best[1])) THEN "Ident" ELSE best[3]
                       IN  IF best[3] \in {"WS", "Comment"} THEN rest
-                          ELSE [rest EXCEPT !.toks = <<[k |-> best[3], s |-> b, e |-> b + nb, i |-> i, n |-> best[1]]>> \o @]
+                          ELSE [rest EXCEPT !.toks = <<[k |-> kind, s |-> b, e |-> b + nb, i |-> i, n |-> best[1]]>> \o @]
       RECURSIVE LexFrom(_, _)
       LexFrom(i, b) ==
         LET ln == LexLine(i, b)
